@@ -31,12 +31,18 @@ pub const TEXTS: &[&str] = &[
 enum Res {
     Caps(Option<Vec<Span>>),
     Iter(Vec<(usize, usize)>, Option<String>),
+    CapsIter(Vec<Vec<Span>>, Option<String>),
+    Pieces(Vec<String>, Option<String>),
+    Find(Option<(usize, usize)>, bool),
     Repl(Result<String, String>),
     Panic(String),
 }
 
+const NKINDS: usize = 6;
+const KIND_NAMES: [&str; NKINDS] = ["captures", "find_iter", "try_replacen", "captures_iter", "split", "find + is_match"];
+
 fn call(re: &Regex, text: &str, kind: usize) -> Res {
-    match catch_unwind(AssertUnwindSafe(|| match kind % 3 {
+    match catch_unwind(AssertUnwindSafe(|| match kind % NKINDS {
         0 => match re.captures(text) {
             Ok(c) => Res::Caps(c.map(|c| engine::caps_vec(&c))),
             Err(e) => Res::Repl(Err(engine::err_kind(&e))),
@@ -45,7 +51,39 @@ fn call(re: &Regex, text: &str, kind: usize) -> Res {
             engine::Out::Val((v, e)) => Res::Iter(v, e),
             other => Res::Panic(other.show()),
         },
-        _ => Res::Repl(re.try_replacen(text, 0, "<$0|$1>").map(|c| c.into_owned()).map_err(|e| engine::err_kind(&e))),
+        2 => Res::Repl(re.try_replacen(text, 0, "<$0|$1>").map(|c| c.into_owned()).map_err(|e| engine::err_kind(&e))),
+        3 => {
+            let mut v = vec![];
+            let mut err = None;
+            for c in re.captures_iter(text).take(text.len() + 3) {
+                match c {
+                    Ok(c) => v.push(engine::caps_vec(&c)),
+                    Err(e) => {
+                        err = Some(engine::err_kind(&e));
+                        break;
+                    }
+                }
+            }
+            Res::CapsIter(v, err)
+        }
+        4 => {
+            let mut v = vec![];
+            let mut err = None;
+            for p in re.split(text).take(text.len() + 4) {
+                match p {
+                    Ok(p) => v.push(p.to_string()),
+                    Err(e) => {
+                        err = Some(engine::err_kind(&e));
+                        break;
+                    }
+                }
+            }
+            Res::Pieces(v, err)
+        }
+        _ => match (re.find(text), re.is_match(text)) {
+            (Ok(m), Ok(b)) => Res::Find(m.map(|m| (m.start(), m.end())), b),
+            (Err(e), _) | (_, Err(e)) => Res::Repl(Err(engine::err_kind(&e))),
+        },
     })) {
         Ok(r) => r,
         Err(e) => Res::Panic(engine::panic_msg(e)),
@@ -75,14 +113,172 @@ fn static_check() -> Result<(), Fail> {
     Err(Fail::new("not-send-sync-clone", "fancy_regex::Regex: Send + Sync + Clone", relevant.join(" | ")))
 }
 
+/// A set of compiled patterns with the single-threaded result of every (pattern, text, call kind)
+struct World {
+    pats: Vec<String>,
+    texts: Vec<String>,
+    regs: Vec<Shared>,
+    expected: Vec<Vec<Vec<Res>>>,
+    has_delegate: Vec<bool>,
+    in_flight: Vec<AtomicUsize>,
+}
+
+impl World {
+    fn new(pats: Vec<String>, regs: Vec<Regex>, texts: Vec<String>) -> World {
+        let has_delegate = pats.iter().zip(&regs).map(|(p, r)| engine::is_vm(r) && engine::program_shape(p).map_or(false, |(d, _)| !d.is_empty())).collect();
+        let expected = regs.iter().map(|r| texts.iter().map(|t| (0..NKINDS).map(|k| call(r, t, k)).collect()).collect()).collect();
+        let in_flight = (0..pats.len()).map(|_| AtomicUsize::new(0)).collect();
+        World { pats, texts, regs: regs.into_iter().map(Shared).collect(), expected, has_delegate, in_flight }
+    }
+}
+
+#[derive(Default)]
+struct Counters {
+    overlaps: AtomicU64,
+    overlaps_vm: AtomicU64,
+    /// incremented after every finished call: a round in which it stands still is stuck
+    progress: AtomicU64,
+}
+
+type Failure = (Value, Fail);
+
+/// seconds without a single finished call (in any thread of the round) after which the round counts as stuck;
+/// one call takes well under 0.1 s single-threaded (pattern and text sizes are bounded, catastrophic generated
+/// patterns are filtered out beforehand), so this is three orders of magnitude of slack
+const STUCK_SECS: u64 = 40;
+
+/// Runs `n` threads behind a barrier. Err = the round is stuck (no thread finished a call for STUCK_SECS while
+/// some have not returned); the stuck threads are leaked, the process ends when `main` returns.
+fn run_threads(n: usize, counters: &Arc<Counters>, job: Arc<dyn Fn(usize) -> Option<Failure> + Send + Sync>) -> Result<Vec<Option<Failure>>, String> {
+    let barrier = Arc::new(Barrier::new(n));
+    let (tx, rx) = std::sync::mpsc::channel::<(usize, Option<Failure>)>();
+    for i in 0..n {
+        let (tx, job, barrier) = (tx.clone(), job.clone(), barrier.clone());
+        std::thread::Builder::new()
+            .stack_size(16 << 20)
+            .spawn(move || {
+                barrier.wait();
+                let r = catch_unwind(AssertUnwindSafe(|| job(i))).unwrap_or_else(|e| Some((json!({"thread": i}), Fail::new("panic", "thread finishes", format!("thread panicked: {}", engine::panic_msg(e))))));
+                let _ = tx.send((i, r));
+            })
+            .expect("spawn");
+    }
+    drop(tx);
+    let mut out: Vec<Option<Failure>> = (0..n).map(|_| None).collect();
+    let mut done = 0;
+    let mut last = counters.progress.load(Ordering::SeqCst);
+    let mut still = 0u64;
+    while done < n {
+        match rx.recv_timeout(std::time::Duration::from_secs(1)) {
+            Ok((i, r)) => {
+                out[i] = r;
+                done += 1;
+                still = 0;
+            }
+            Err(std::sync::mpsc::RecvTimeoutError::Timeout) => {
+                let now = counters.progress.load(Ordering::SeqCst);
+                if now != last {
+                    last = now;
+                    still = 0;
+                } else {
+                    still += 1;
+                    if still >= STUCK_SECS {
+                        return Err(format!("{} of {} threads have not returned and no thread finished a call for {} s", n - done, n, STUCK_SECS));
+                    }
+                }
+            }
+            Err(std::sync::mpsc::RecvTimeoutError::Disconnected) => break,
+        }
+    }
+    Ok(out)
+}
+
+fn fail_of(w: &World, pi: usize, ti: usize, kind: usize, mode: &str, threads: usize, round: usize, got: Res) -> Failure {
+    (
+        json!({"pattern": w.pats[pi], "text": w.texts[ti], "call": KIND_NAMES[kind], "mode": mode, "threads": threads, "round": round}),
+        Fail::new(if matches!(got, Res::Panic(_)) { "panic" } else { "result-differs" }, format!("{:?}", w.expected[pi][ti][kind]), format!("{:?}", got)),
+    )
+}
+
+/// one stress round: every thread runs its generated call sequence over the focus patterns of the world
+fn stress_round(w: &Arc<World>, counters: &Arc<Counters>, focus: Vec<usize>, seqs: Vec<Vec<u32>>, round: usize) -> Result<Vec<Option<Failure>>, String> {
+    let nthreads = seqs.len();
+    let (w2, c2) = (w.clone(), counters.clone());
+    let seqs = Arc::new(seqs);
+    let job = move |ti: usize| -> Option<Failure> {
+        let w = &*w2;
+        let own: Vec<Regex> = focus.iter().map(|&pi| w.regs[pi].0.clone()).collect();
+        for x in seqs[ti].iter() {
+            let x = *x as usize;
+            let fi = x % focus.len();
+            let pi = focus[fi];
+            let tx = (x >> 4) % w.texts.len();
+            let kind = (x >> 12) % NKINDS;
+            let mode = (x >> 16) % 3;
+            let got = match mode {
+                0 => {
+                    let prev = w.in_flight[pi].fetch_add(1, Ordering::SeqCst);
+                    if prev > 0 {
+                        c2.overlaps.fetch_add(1, Ordering::Relaxed);
+                        if w.has_delegate[pi] {
+                            c2.overlaps_vm.fetch_add(1, Ordering::Relaxed);
+                        }
+                    }
+                    let r = call(&w.regs[pi].0, &w.texts[tx], kind);
+                    w.in_flight[pi].fetch_sub(1, Ordering::SeqCst);
+                    r
+                }
+                1 => call(&own[fi], &w.texts[tx], kind),
+                _ => {
+                    let c = w.regs[pi].0.clone();
+                    call(&c, &w.texts[tx], kind)
+                }
+            };
+            c2.progress.fetch_add(1, Ordering::SeqCst);
+            if got != w.expected[pi][tx][kind] {
+                return Some(fail_of(w, pi, tx, kind, ["shared", "clone-before", "clone-concurrently"][mode], nthreads, round, got));
+            }
+        }
+        None
+    };
+    run_threads(nthreads, counters, Arc::new(job))
+}
+
+/// all threads hammer one (pattern, text) pair through one shared instance (every third thread through a clone of it),
+/// each thread cycling through the call kinds from a different start
+fn hammer_round(w: &Arc<World>, counters: &Arc<Counters>, pi: usize, ti: usize, nthreads: usize, reps: usize, round: usize, mode: &'static str) -> Result<Vec<Option<Failure>>, String> {
+    let (w2, c2) = (w.clone(), counters.clone());
+    let job = move |k: usize| -> Option<Failure> {
+        let w = &*w2;
+        let mine = if k % 3 == 2 { Some(w.regs[pi].0.clone()) } else { None };
+        for i in 0..reps {
+            let kind = (i + k) % NKINDS;
+            let got = call(mine.as_ref().unwrap_or(&w.regs[pi].0), &w.texts[ti], kind);
+            c2.progress.fetch_add(1, Ordering::SeqCst);
+            c2.overlaps_vm.fetch_add(1, Ordering::Relaxed);
+            if got != w.expected[pi][ti][kind] {
+                return Some(fail_of(w, pi, ti, kind, mode, nthreads, round, got));
+            }
+        }
+        None
+    };
+    run_threads(nthreads, counters, Arc::new(job))
+}
+
+/// (pattern, text) pairs on which the iterators carry state from one search to the next (an empty match is
+/// skipped, `\G` must then fail) while other threads run plain searches on the same instance
+const ITER_STATE: &[(&str, &str)] = &[
+    (r"\G\d*", "12a"), (r"\G(?:a|)", "aab b"), (r"(?:\Ga)*b?", "aab"), (r"\G\w*?(?=\d)|", "ab1 c"), (r"(?<=\Ka)|\Gb", "abab"), (r"\b|\G.", "é a"), (r"(?=(\w))\1?\G", "ab"), (r"\G(?>a*)(?!b)", "aaab aa"),
+];
+
 pub fn run(ctx: &RunCtx) -> Outcome {
     let mut o = Outcome::default();
-    o.rule = format!("corpus of {} delegated and VM-compiled patterns (with delegates, counters, atomic groups, look-arounds, back-references, \\G, \\K, conditionals) x {} texts; rounds of 2..16 threads started behind a barrier, each running a proptest-generated sequence of calls (captures, find_iter, try_replacen with group expansion) through one shared &Regex per pattern, through clones made beforehand and through clones made concurrently inside the threads; after each round a hot-spot phase in which all threads hammer one VM pattern on the text that needs the most backtracks, through one shared instance (and clones of it) whose backtrack limit is only a third above that need; every result must equal the single-threaded result computed beforehand, no call may panic, all threads must finish (watchdog => inconclusive). Static part: a separate crate asserting Regex: Send + Sync + Clone must build. Non-trivial = a call on a shared instance of a VM pattern with >= 1 delegate that started while another thread was inside a call on the same instance (measured with an atomic in-flight counter). Distinct = distinct (round, thread, step).", PATTERNS.len(), TEXTS.len());
+    o.rule = format!("(1) corpus of {} delegated and VM-compiled patterns (with delegates, counters, atomic groups, look-arounds, back-references, \\G, \\K, conditionals) x {} texts; rounds of 2..16 threads started behind a barrier, each running a proptest-generated sequence of calls ({}) through one shared &Regex per pattern, through clones made beforehand and through clones made concurrently inside the threads; (2) after each round a hot-spot phase in which all threads hammer one VM pattern on the text that needs the most backtracks through one shared instance (and clones of it) whose backtrack limit is only a third above that need, or one of {} (pattern, text) pairs on which the iterators carry state between searches (skipped empty match, \\G); (3) rounds over freshly generated patterns: proptest byte vectors decoded into ASTs of the unrestricted grammar, kept if VM-compiled and cheap (<= 20000 backtracks on every text), three per round x 12 short texts. Every result must equal the single-threaded result computed beforehand, no call may panic, and every round must finish: a round in which no thread finishes a call for {} s while threads are still out is reported as a deadlock. Static part: a separate crate asserting Regex: Send + Sync + Clone must build. Non-trivial = a call on a shared instance of a VM pattern with >= 1 delegate that started while another thread was inside a call on the same instance (measured with an atomic in-flight counter). Distinct = distinct (round, thread, step).", PATTERNS.len(), TEXTS.len(), KIND_NAMES.join(", "), ITER_STATE.len(), STUCK_SECS);
     o.assumptions = vec![
         "the thread schedule is the operating system's: this is the one property where generated-input search is weak; the check can only report a violation it happens to provoke".into(),
         "regex-automata's internal pool cannot be put under a controlled scheduler with the installed tooling".into(),
     ];
-    o.required_classes = vec!["mode:shared".into(), "mode:clone-before".into(), "mode:clone-concurrently".into(), "overlap:shared-VM-with-delegate".into()];
+    o.required_classes = vec!["mode:shared".into(), "mode:clone-before".into(), "mode:clone-concurrently".into(), "overlap:shared-VM-with-delegate".into(), "mode:iterator-state".into(), "generated:rounds".into()];
     // static part (not repeated by the ThreadSanitizer child)
     match if std::env::var("FRV_C18_TSAN_INNER").is_ok() { Ok(()) } else { static_check() } {
         Ok(()) => o.stats.class("static:Send+Sync+Clone"),
@@ -96,34 +292,34 @@ pub fn run(ctx: &RunCtx) -> Outcome {
         }
     }
     // single-threaded expectations
-    let mut regs: Vec<Arc<Shared>> = vec![];
-    let mut has_delegate = vec![];
+    let mut regs: Vec<Regex> = vec![];
     for p in PATTERNS {
         // a limit not far above what the heaviest single-threaded search of the corpus needs (~15k backtracks)
         let built = if p.contains("-\\1!") { fancy_regex::RegexBuilder::new(p).backtrack_limit(20_000).build() } else { Regex::new(p) };
         match built {
-            Ok(r) => {
-                has_delegate.push(engine::is_vm(&r) && engine::program_shape(p).map_or(false, |(d, _)| !d.is_empty()));
-                regs.push(Arc::new(Shared(r)));
-            }
+            Ok(r) => regs.push(r),
             Err(e) => {
                 o.infra_error = Some(format!("corpus pattern {:?} does not compile: {}", p, e));
                 return o;
             }
         }
     }
-    let expected: Vec<Vec<[Res; 3]>> = regs.iter().map(|r| TEXTS.iter().map(|t| [call(&r.0, t, 0), call(&r.0, t, 1), call(&r.0, t, 2)]).collect()).collect();
+    let world = Arc::new(World::new(PATTERNS.iter().map(|s| s.to_string()).collect(), regs, TEXTS.iter().map(|s| s.to_string()).collect()));
     // hot spots: per VM pattern the text needing the most backtracks, and a regex whose backtrack
-    // limit is only a third above that need (so that searches disturbing each other's accounting show)
-    let mut hot: Vec<(usize, usize, Arc<Shared>, [Res; 3])> = vec![];
+    // limit is only a third above that need (so that searches disturbing each other's accounting show);
+    // plus the iterator-state pairs
+    let mut hot_pats = vec![];
+    let mut hot_regs = vec![];
+    let mut hot_texts: Vec<String> = vec![];
+    let mut hot_pairs: Vec<(usize, usize, &'static str)> = vec![];
     for (pi, p) in PATTERNS.iter().enumerate() {
-        if !engine::is_vm(&regs[pi].0) {
+        if !engine::is_vm(&world.regs[pi].0) {
             continue;
         }
         let mut best = (0u64, 0usize);
         for (ti, t) in TEXTS.iter().enumerate() {
             fancy_regex::verif_hooks::reset_run_stats();
-            let _ = regs[pi].0.find(t);
+            let _ = world.regs[pi].0.find(t);
             let b = fancy_regex::verif_hooks::last_run_stats().backtracks;
             if b > best.0 {
                 best = (b, ti);
@@ -135,24 +331,43 @@ pub fn run(ctx: &RunCtx) -> Outcome {
         // find_iter / replace run several searches; the limit applies to each one separately
         let limit = (best.0 + best.0 / 3 + 1) as usize;
         if let Ok(r) = fancy_regex::RegexBuilder::new(p).backtrack_limit(limit).build() {
-            let t = TEXTS[best.1];
-            let exp = [call(&r, t, 0), call(&r, t, 1), call(&r, t, 2)];
-            hot.push((pi, best.1, Arc::new(Shared(r)), exp));
+            hot_pairs.push((hot_pats.len(), hot_texts.len(), "hot-spot (shared instance with a tight backtrack limit)"));
+            hot_pats.push(p.to_string());
+            hot_regs.push(r);
+            hot_texts.push(TEXTS[best.1].to_string());
         }
     }
-    let in_flight: Vec<AtomicUsize> = (0..PATTERNS.len()).map(|_| AtomicUsize::new(0)).collect();
-    let overlaps = AtomicU64::new(0);
-    let overlaps_vm = AtomicU64::new(0);
+    for (p, t) in ITER_STATE {
+        match Regex::new(p) {
+            Ok(r) => {
+                hot_pairs.push((hot_pats.len(), hot_texts.len(), "iterator-state (iterators skipping empty matches next to plain searches on one instance)"));
+                hot_pats.push(p.to_string());
+                hot_regs.push(r);
+                hot_texts.push(t.to_string());
+            }
+            Err(e) => {
+                o.infra_error = Some(format!("iterator-state pattern {:?} does not compile: {}", p, e));
+                return o;
+            }
+        }
+    }
+    let hot_world = Arc::new(World::new(hot_pats, hot_regs, hot_texts));
+    let counters = Arc::new(Counters::default());
     let inner_tsan = std::env::var("FRV_C18_TSAN_INNER").is_ok();
     let rounds = match std::env::var("FRV_C18_ROUNDS").ok().and_then(|r| r.parse().ok()) {
         Some(r) => r,
-        None => if ctx.quick() { 120 } else { 2500 },
+        None => if ctx.quick() { 100 } else { 2000 },
     };
     let steps = if ctx.quick() { 400 } else { 800 };
-    let mut first_fail: Option<(Value, Fail)> = None;
+    let gen_texts: Vec<String> = ["", "a", "ab", "aab", "abab", "aaaa", "ba", "éa", "a\nb", "abcabc", "aabbaabb", "ab ab ab"].iter().map(|s| s.to_string()).collect();
+    let rcfg = crate::gen::RandCfg::wild();
+    let mut first_fail: Option<Failure> = None;
     let mut evals = 0u64;
     let mut nontrivial = 0u64;
-    for round in 0..rounds {
+    let mut gen_pats_used = 0u64;
+    let mut gen_skipped = 0u64;
+    let stuck = |what: String, case: Value| -> Failure { (case, Fail::new("deadlock", "every thread finishes its calls", what)) };
+    'rounds: for round in 0..rounds {
         let nthreads = 2 + (round % 15) as usize;
         // per-thread call sequences from the library's generator
         let config = Config { failure_persistence: None, ..Config::default() };
@@ -161,117 +376,125 @@ pub fn run(ctx: &RunCtx) -> Outcome {
         let strat = proptest::collection::vec(proptest::collection::vec(proptest::num::u32::ANY, steps), nthreads);
         let seqs: Vec<Vec<u32>> = strat.new_tree(&mut runner).expect("generate").current();
         // a round concentrates on a few patterns so that calls really overlap
-        let focus: Vec<usize> = (0..3).map(|k| ((seqs[0][k] as usize) % PATTERNS.len())).collect();
-        let barrier = Barrier::new(nthreads);
-        let before = overlaps_vm.load(Ordering::Relaxed);
-        let fails: Vec<Option<(Value, Fail)>> = std::thread::scope(|s| {
-            let handles: Vec<_> = (0..nthreads)
-                .map(|ti| {
-                    let seq = &seqs[ti];
-                    let (regs, expected, in_flight, overlaps, overlaps_vm, barrier, focus, has_delegate) = (&regs, &expected, &in_flight, &overlaps, &overlaps_vm, &barrier, &focus, &has_delegate);
-                    s.spawn(move || {
-                        let own: Vec<Regex> = focus.iter().map(|&pi| regs[pi].0.clone()).collect();
-                        barrier.wait();
-                        for (step, x) in seq.iter().enumerate() {
-                            let x = *x as usize;
-                            let fi = x % focus.len();
-                            let pi = focus[fi];
-                            let ti_text = (x >> 4) % TEXTS.len();
-                            let kind = (x >> 12) % 3;
-                            let mode = (x >> 16) % 3;
-                            let got = match mode {
-                                0 => {
-                                    let prev = in_flight[pi].fetch_add(1, Ordering::SeqCst);
-                                    if prev > 0 {
-                                        overlaps.fetch_add(1, Ordering::Relaxed);
-                                        if has_delegate[pi] {
-                                            overlaps_vm.fetch_add(1, Ordering::Relaxed);
-                                        }
-                                    }
-                                    let r = call(&regs[pi].0, TEXTS[ti_text], kind);
-                                    in_flight[pi].fetch_sub(1, Ordering::SeqCst);
-                                    r
-                                }
-                                1 => call(&own[fi], TEXTS[ti_text], kind),
-                                _ => {
-                                    let c = regs[pi].0.clone();
-                                    call(&c, TEXTS[ti_text], kind)
-                                }
-                            };
-                            if got != expected[pi][ti_text][kind] {
-                                let call_name = ["captures", "find_iter", "try_replacen"][kind];
-                                let mode_name = ["shared", "clone-before", "clone-concurrently"][mode];
-                                return Some((
-                                    json!({"pattern": PATTERNS[pi], "text": TEXTS[ti_text], "call": call_name, "mode": mode_name, "threads": nthreads, "round": round, "step": step}),
-                                    Fail::new(if matches!(got, Res::Panic(_)) { "panic" } else { "result-differs" }, format!("{:?}", expected[pi][ti_text][kind]), format!("{:?}", got)),
-                                ));
-                            }
-                        }
-                        None
-                    })
-                })
-                .collect();
-            handles.into_iter().map(|h| h.join().unwrap_or_else(|_| Some((json!({"round": round}), Fail::new("panic", "thread finishes", "thread panicked")))))
-                .collect()
-        });
-        evals += (nthreads * steps) as u64;
-        nontrivial += overlaps_vm.load(Ordering::Relaxed) - before;
-        // hot-spot round: all threads hammer one (pattern, heaviest text) pair on one shared instance
-        if !hot.is_empty() && fails.iter().all(|f| f.is_none()) {
-            let (pi, ti, re, exp) = &hot[round % hot.len()];
-            let barrier = Barrier::new(nthreads);
-            let reps = 60usize;
-            let hf: Vec<Option<(Value, Fail)>> = std::thread::scope(|s| {
-                let hs: Vec<_> = (0..nthreads)
-                    .map(|k| {
-                        let (re, exp, barrier, overlaps_vm) = (re, exp, &barrier, &overlaps_vm);
-                        s.spawn(move || {
-                            let mine = if k % 3 == 2 { Some(re.0.clone()) } else { None };
-                            barrier.wait();
-                            for i in 0..reps {
-                                let kind = (i + k) % 3;
-                                let got = call(mine.as_ref().unwrap_or(&re.0), TEXTS[*ti], kind);
-                                overlaps_vm.fetch_add(1, Ordering::Relaxed);
-                                if got != exp[kind] {
-                                    let call_name = ["captures", "find_iter", "try_replacen"][kind];
-                                    return Some((
-                                        json!({"pattern": PATTERNS[*pi], "text": TEXTS[*ti], "call": call_name, "mode": "hot-spot (shared instance with a tight backtrack limit)", "threads": nthreads, "round": round}),
-                                        Fail::new(if matches!(got, Res::Panic(_)) { "panic" } else { "result-differs" }, format!("{:?}", exp[kind]), format!("{:?}", got)),
-                                    ));
-                                }
-                            }
-                            None
-                        })
-                    })
-                    .collect();
-                hs.into_iter().map(|h| h.join().unwrap_or(None)).collect()
-            });
-            evals += (nthreads * reps) as u64;
-            nontrivial += (nthreads * reps) as u64;
-            o.stats.class_n("mode:hot-spot", (nthreads * reps) as u64);
-            if let Some(f) = hf.into_iter().flatten().next() {
-                first_fail = Some(f);
-                break;
+        let focus: Vec<usize> = (0..3).map(|k| (seqs[0][k] as usize) % PATTERNS.len()).collect();
+        let before = counters.overlaps_vm.load(Ordering::Relaxed);
+        let focus_names: Vec<&str> = focus.iter().map(|i| PATTERNS[*i]).collect();
+        match stress_round(&world, &counters, focus.clone(), seqs, round) {
+            Err(what) => {
+                first_fail = Some(stuck(what, json!({"round": round, "threads": nthreads, "mode": "corpus stress", "focus_patterns": focus_names})));
+                break 'rounds;
+            }
+            Ok(fails) => {
+                evals += (nthreads * steps) as u64;
+                nontrivial += counters.overlaps_vm.load(Ordering::Relaxed) - before;
+                if let Some(f) = fails.into_iter().flatten().next() {
+                    first_fail = Some(f);
+                    break 'rounds;
+                }
             }
         }
-        if let Some(f) = fails.into_iter().flatten().next() {
-            first_fail = Some(f);
-            break;
+        // hot-spot round and iterator-state round
+        let hots: Vec<&(usize, usize, &'static str)> = hot_pairs.iter().filter(|p| p.2.starts_with("hot")).collect();
+        let iters: Vec<&(usize, usize, &'static str)> = hot_pairs.iter().filter(|p| !p.2.starts_with("hot")).collect();
+        let mut todo = vec![*iters[round % iters.len()]];
+        if !hots.is_empty() {
+            todo.push(*hots[round % hots.len()]);
         }
-        if o.stats.samples.len() < 3 && round % 20 == 0 {
-            o.stats.sample(json!({"round": round, "threads": nthreads, "focus_patterns": focus.iter().map(|i| PATTERNS[*i]).collect::<Vec<_>>(), "steps_per_thread": steps}));
+        for (pi, ti, mode) in todo {
+            let reps = 60usize;
+            match hammer_round(&hot_world, &counters, pi, ti, nthreads, reps, round, mode) {
+                Err(what) => {
+                    first_fail = Some(stuck(what, json!({"round": round, "threads": nthreads, "mode": mode, "pattern": hot_world.pats[pi], "text": hot_world.texts[ti]})));
+                    break 'rounds;
+                }
+                Ok(fails) => {
+                    evals += (nthreads * reps) as u64;
+                    nontrivial += (nthreads * reps) as u64;
+                    o.stats.class_n(if mode.starts_with("hot") { "mode:hot-spot" } else { "mode:iterator-state" }, (nthreads * reps) as u64);
+                    if let Some(f) = fails.into_iter().flatten().next() {
+                        first_fail = Some(f);
+                        break 'rounds;
+                    }
+                }
+            }
+        }
+        // generated round: three fresh VM patterns from the byte decoder of the unrestricted grammar
+        {
+            let rng = TestRng::from_seed(RngAlgorithm::ChaCha, &ctx.subseed("generated", round as u64));
+            let mut runner = TestRunner::new_with_rng(Config { failure_persistence: None, ..Config::default() }, rng);
+            let bstrat = proptest::collection::vec(proptest::num::u8::ANY, 0..64);
+            let mut pats = vec![];
+            let mut regs = vec![];
+            for _ in 0..40 {
+                if pats.len() == 3 {
+                    break;
+                }
+                let bytes = bstrat.new_tree(&mut runner).expect("generate").current();
+                let pat = crate::gen::decode_pattern(&rcfg, &bytes).to_pattern();
+                let re = match engine::build(&pat) {
+                    engine::Built::Ok(r) if engine::is_vm(&r) => r,
+                    _ => {
+                        gen_skipped += 1;
+                        continue;
+                    }
+                };
+                // cheap on every text (the count is deterministic, so it is the same in the threads)
+                let cheap = gen_texts.iter().all(|t| {
+                    fancy_regex::verif_hooks::reset_run_stats();
+                    let _ = catch_unwind(AssertUnwindSafe(|| re.find(t).is_ok()));
+                    fancy_regex::verif_hooks::last_run_stats().backtracks <= 20_000
+                });
+                if !cheap || pats.contains(&pat) {
+                    gen_skipped += 1;
+                    continue;
+                }
+                pats.push(pat);
+                regs.push(re);
+            }
+            if !pats.is_empty() {
+                gen_pats_used += pats.len() as u64;
+                let gsteps = steps / 2;
+                let strat = proptest::collection::vec(proptest::collection::vec(proptest::num::u32::ANY, gsteps), nthreads);
+                let seqs: Vec<Vec<u32>> = strat.new_tree(&mut runner).expect("generate").current();
+                let gw = Arc::new(World::new(pats.clone(), regs, gen_texts.clone()));
+                let before = counters.overlaps_vm.load(Ordering::Relaxed);
+                match stress_round(&gw, &counters, (0..pats.len()).collect(), seqs, round) {
+                    Err(what) => {
+                        first_fail = Some(stuck(what, json!({"round": round, "threads": nthreads, "mode": "generated patterns", "focus_patterns": pats})));
+                        break 'rounds;
+                    }
+                    Ok(fails) => {
+                        evals += (nthreads * gsteps) as u64;
+                        nontrivial += counters.overlaps_vm.load(Ordering::Relaxed) - before;
+                        o.stats.class("generated:rounds");
+                        if let Some((mut case, f)) = fails.into_iter().flatten().next() {
+                            case["mode"] = json!(format!("generated patterns / {}", case["mode"].as_str().unwrap_or("")));
+                            first_fail = Some((case, f));
+                            break 'rounds;
+                        }
+                    }
+                }
+                if o.stats.samples.len() < 6 && round % 20 == 1 {
+                    o.stats.sample(json!({"round": round, "threads": nthreads, "generated_patterns": pats, "steps_per_thread": gsteps}));
+                }
+            }
+        }
+        if o.stats.samples.len() < 6 && round % 20 == 0 {
+            o.stats.sample(json!({"round": round, "threads": nthreads, "focus_patterns": focus_names, "steps_per_thread": steps}));
         }
     }
     o.stats.evaluations = evals;
-    o.stats.patterns = PATTERNS.len() as u64;
+    o.stats.patterns = PATTERNS.len() as u64 + hot_world.pats.len() as u64 + gen_pats_used;
     o.stats.class_n("mode:shared", evals / 3);
     o.stats.class_n("mode:clone-before", evals / 3);
     o.stats.class_n("mode:clone-concurrently", evals / 3);
-    o.stats.class_n("overlap:any-shared", overlaps.load(Ordering::Relaxed));
-    o.stats.class_n("overlap:shared-VM-with-delegate", overlaps_vm.load(Ordering::Relaxed));
+    o.stats.class_n("overlap:any-shared", counters.overlaps.load(Ordering::Relaxed));
+    o.stats.class_n("overlap:shared-VM-with-delegate", counters.overlaps_vm.load(Ordering::Relaxed));
+    o.stats.class_n("generated:patterns", gen_pats_used);
+    *o.stats.skipped.entry("generated:not-VM-or-not-cheap".to_string()).or_insert(0) += gen_skipped;
     // every overlapping call is a distinct (round, thread, step)
     o.stats.nontrivial_add(hash64(&"overlaps"), nontrivial.min(u32::MAX as u64) as u32);
-    o.generators.push(json!({"mode": "stress", "rounds": rounds, "steps_per_thread": steps, "threads": "2..16", "seed": ctx.seed}));
+    o.generators.push(json!({"mode": "stress", "rounds": rounds, "steps_per_thread": steps, "threads": "2..16", "seed": ctx.seed, "generated_patterns": gen_pats_used, "generated_draws_skipped": gen_skipped}));
     if let Some((case, fail)) = first_fail {
         o.violations.push(Violation { case, fail });
     }
